@@ -14,6 +14,14 @@ from bip_utils.bip.bip39.bip39_mnemonic_utils import Bip39WordsListGetter
 from bip_utils.monero.mnemonic.monero_mnemonic_utils import MoneroWordsListGetter
 from bip_utils.electrum.mnemonic_v1.electrum_v1_mnemonic import ElectrumV1Languages
 from bip_utils.electrum.mnemonic_v1.electrum_v1_mnemonic_utils import ElectrumV1WordsListGetter
+from bip_utils import (
+    ElectrumV1MnemonicDecoder, ElectrumV1MnemonicEncoder, ElectrumV1MnemonicValidator,
+    ElectrumV2Languages, ElectrumV2MnemonicDecoder, ElectrumV2MnemonicEncoder, ElectrumV2MnemonicGenerator,
+    ElectrumV2MnemonicTypes, ElectrumV2MnemonicValidator,
+)
+from bip_utils.electrum.mnemonic_v1 import ElectrumV1Mnemonic
+from bip_utils.electrum.mnemonic_v2 import ElectrumV2Mnemonic
+from bip_utils.electrum.mnemonic_v2.electrum_v2_entropy_generator import ElectrumV2EntropyGenerator
 from bip_utils.utils.crypto import Crc32
 from bip_utils.utils.misc import AlgoUtils
 from bip_utils.utils.mnemonic import MnemonicUtils
@@ -265,6 +273,170 @@ def direct_convert_bits(a):
     return None
 
 
+# ------------------------------------------------------------------ Electrum v1
+
+def impl_ev1_encode(a):
+    return ElectrumV1MnemonicEncoder().Encode(a[0]).ToList()
+
+
+def impl_ev1_decode(a):
+    return ElectrumV1MnemonicDecoder().Decode(_phrase(ElectrumV1Mnemonic, a[0]))
+
+
+def impl_ev1_is_valid(a):
+    return ElectrumV1MnemonicValidator().IsValid(_phrase(ElectrumV1Mnemonic, a[0]))
+
+
+def direct_ev1_encode(a):
+    e = a[0]
+    try:
+        ws = impl_ev1_encode(a)
+    except ValueError:
+        return None
+    if len(ws) != 12:
+        return "Electrum v1 encoding has %d words" % len(ws)
+    d = ElectrumV1MnemonicDecoder().Decode(" ".join(ws))
+    return None if d == e else "Electrum v1 decode(encode(%s)) = %s" % (e.hex(), d.hex())
+
+
+def direct_ev1_decode(a):
+    try:
+        d = impl_ev1_decode(a)
+    except Exception:  # noqa
+        return None
+    if len(d) != 16:
+        return "accepted Electrum v1 phrase decodes to %d bytes" % len(d)
+    back = ElectrumV1MnemonicEncoder().Encode(d).ToList()
+    given = ElectrumV1Mnemonic.FromList(list(a[0])).ToList()
+    return None if back == given else "accepted Electrum v1 phrase re-encodes to a different phrase"
+
+
+# ------------------------------------------------------------------ Electrum v2
+
+E2T = list(ElectrumV2MnemonicTypes)
+E2L = list(ElectrumV2Languages)
+E2_B39 = [B39L.index(l.value) for l in E2L]          # position of each encoder language in the finder's order
+E2_PREFIX = ["01", "100", "101", "102"]              # generator-side only (to search for hash-valid phrases)
+E2_MAX = 10 ** 6
+
+
+def _e2t(t):
+    return None if t >= NOLANG else E2T[t]
+
+
+def _e2l(l):
+    return None if l >= NOLANG else E2L[l]
+
+
+def impl_ev2_gate(a):
+    return ElectrumV2EntropyGenerator.AreEntropyBitsEnough(a[0])
+
+
+def impl_ev2_encode(a):
+    ty, l, b = a
+    return ElectrumV2MnemonicEncoder(E2T[ty], E2L[l]).Encode(b).ToList()
+
+
+def impl_ev2_decode(a):
+    ty, l, ws = a
+    return ElectrumV2MnemonicDecoder(_e2t(ty), _e2l(l)).Decode(_phrase(ElectrumV2Mnemonic, ws))
+
+
+def impl_ev2_is_valid(a):
+    ty, l, ws = a
+    return ElectrumV2MnemonicValidator(_e2t(ty), _e2l(l)).IsValid(_phrase(ElectrumV2Mnemonic, ws))
+
+
+def impl_ev2_from_entropy(a):
+    ty, l, b = a[:3]
+    return ElectrumV2MnemonicGenerator(E2T[ty], E2L[l]).FromEntropy(b).ToList()
+
+
+def _int_bytes(v):
+    return v.to_bytes(max(1, (v.bit_length() + 7) // 8), "big")
+
+
+def direct_ev2_gate(a):
+    """The gate says yes exactly when the integer has 12 or 24 base-2048 digits (what the decoder accepts)."""
+    e = a[0]
+    n = 0
+    v = e
+    while v > 0:
+        v //= 2048
+        n += 1
+    r = impl_ev2_gate(a)
+    return None if r == (n in (12, 24)) else "AreEntropyBitsEnough(%d-bit integer) = %s but it has %d base-2048 digits" % (
+        e.bit_length(), r, n)
+
+
+def direct_ev2_encode(a):
+    ty, l, b = a
+    try:
+        ws = impl_ev2_encode(a)
+    except ValueError:
+        return None
+    want = _int_bytes(int.from_bytes(b, "big"))
+    for dec in (ElectrumV2MnemonicDecoder(E2T[ty], E2L[l]), ElectrumV2MnemonicDecoder()):
+        try:
+            d = dec.Decode(" ".join(ws))
+        except Exception as ex:  # noqa
+            return "Electrum v2 encoding of a %d-bit entropy has %d words and is refused by the decoder (%s)" % (
+                int.from_bytes(b, "big").bit_length(), len(ws), type(ex).__name__)
+        if d != want:
+            return "Electrum v2 decode(encode(%s)) = %s" % (b.hex(), d.hex())
+    return None
+
+
+def direct_ev2_from_entropy(a):
+    ty, l, b = a[:3]
+    try:
+        ws = impl_ev2_from_entropy(a)
+    except ValueError:
+        return None
+    try:
+        d = ElectrumV2MnemonicDecoder(E2T[ty], E2L[l]).Decode(" ".join(ws))
+    except Exception as ex:  # noqa
+        return "FromEntropy(%d-bit entropy) returns %d words which the decoder refuses (%s)" % (
+            int.from_bytes(b, "big").bit_length(), len(ws), type(ex).__name__)
+    e0, e1 = int.from_bytes(b, "big"), int.from_bytes(d, "big")
+    return None if e0 <= e1 < e0 + E2_MAX else "FromEntropy phrase decodes to an entropy outside [e, e + MAX_ATTEMPTS)"
+
+
+def _ev2_lang_used(l, ws):
+    if l < NOLANG:
+        return E2_B39[l]
+    for i, idx in enumerate(B39_IDX):
+        if all(w in idx for w in ws):
+            return i
+    return None
+
+
+def direct_ev2_decode(a):
+    """Accepted phrases are canonical: the decoded entropy re-encodes (same type, same language) to the phrase."""
+    ty, l, ws = a
+    try:
+        d = impl_ev2_decode(a)
+    except Exception:  # noqa
+        return None
+    given = ElectrumV2Mnemonic.FromList(list(ws)).ToList()
+    lu = _ev2_lang_used(l, given)
+    if lu not in E2_B39:
+        return None                      # a BIP-39 language the encoder does not offer: nothing to re-encode with
+    types = [ty] if ty < NOLANG else range(len(E2T))
+    last = None
+    for t in types:
+        try:
+            back = ElectrumV2MnemonicEncoder(E2T[t], E2L[E2_B39.index(lu)]).Encode(d).ToList()
+        except ValueError as ex:
+            last = "re-encoding raises ValueError"
+            continue
+        if back == given:
+            return None
+        last = "re-encodes to a different phrase"
+    return "accepted Electrum v2 phrase (last word %r) decodes to a %d-bit entropy whose %s" % (
+        given[-1], int.from_bytes(d, "big").bit_length(), last)
+
+
 _M = [None]    # the model driver of the current run (for the 'either' checks)
 
 
@@ -309,6 +481,29 @@ FUNCS = {
                       impl=impl_algo_seed),
     "algo_is_valid": Func(model=lambda m, a: m.call("algo_is_valid", 1, _npass(AlgorandMnemonic, a[0]), a[0]),
                           impl=impl_algo_is_valid),
+    "ev1_encode": Func(model=lambda m, a: m.call("ev1_encode", a[0]), impl=impl_ev1_encode, direct=direct_ev1_encode),
+    "ev1_decode": Func(model=lambda m, a: m.call("ev1_decode", 1, _npass(ElectrumV1Mnemonic, a[0]), a[0]),
+                       impl=impl_ev1_decode, direct=direct_ev1_decode),
+    "ev1_is_valid": Func(model=lambda m, a: m.call("ev1_is_valid", 1, _npass(ElectrumV1Mnemonic, a[0]), a[0]),
+                         impl=impl_ev1_is_valid),
+    "ev1_decode_either": Func(direct=lambda a: _either(
+        ["ev1_decode", "ev1_decode"], impl_ev1_decode, a, None,
+        margs_list=[[1, _npass(ElectrumV1Mnemonic, a[0]), a[0]], [0, _npass(ElectrumV1Mnemonic, a[0]), a[0]]])),
+    "ev2_gate": Func(model=lambda m, a: m.call("ev2_gate", 1, a[0]), impl=impl_ev2_gate, direct=direct_ev2_gate),
+    "ev2_gate_either": Func(direct=lambda a: None if _float_disagrees(a[0]) else _either(
+        ["ev2_gate", "ev2_gate"], impl_ev2_gate, a, None, margs_list=[[1, a[0]], [0, a[0]]])),
+    "ev2_encode": Func(model=lambda m, a: m.call("ev2_encode", 1, 1, a[0], a[1], a[2]), impl=impl_ev2_encode,
+                       direct=direct_ev2_encode),
+    "ev2_decode": Func(model=lambda m, a: m.call("ev2_decode", 1, a[0], a[1], _npass(ElectrumV2Mnemonic, a[2]), a[2]),
+                       impl=impl_ev2_decode, direct=direct_ev2_decode),
+    "ev2_is_valid": Func(model=lambda m, a: m.call("ev2_is_valid", 1, a[0], a[1], _npass(ElectrumV2Mnemonic, a[2]), a[2]),
+                         impl=impl_ev2_is_valid),
+    "ev2_decode_either": Func(direct=lambda a: _either(
+        ["ev2_decode", "ev2_decode"], impl_ev2_decode, a, None,
+        margs_list=[[1, a[0], a[1], _npass(ElectrumV2Mnemonic, a[2]), a[2]],
+                    [0, a[0], a[1], _npass(ElectrumV2Mnemonic, a[2]), a[2]]])),
+    "ev2_from_entropy": Func(model=lambda m, a: m.call("ev2_from_entropy", 1, 1, a[0], a[1], a[3], a[2]),
+                             impl=impl_ev2_from_entropy, direct=direct_ev2_from_entropy),
     "algo_decode_either": Func(direct=lambda a: _either(
         ["algo_decode", "algo_decode"], impl_algo_decode, a, None,
         margs_list=[[1, _npass(AlgorandMnemonic, a[0]), a[0]], [0, _npass(AlgorandMnemonic, a[0]), a[0]]])),
@@ -338,6 +533,14 @@ def f8_chunk_overflow(fn, args, rec):
         if lu is None or len(ws) not in (12, 13, 24, 25):
             return False
         return _overflow_in(XMR_IDX[lu], ws, 3 * (len(ws) // 3))
+    if fn in ("ev1_decode", "ev1_is_valid", "ev2_decode", "ev2_is_valid"):
+        # Electrum v1 directly, or as Electrum v2's "is a valid v1 mnemonic" exclusion test
+        try:
+            ws = ElectrumV1Mnemonic.FromList(list(args[-1])).ToList()
+        except Exception:  # noqa
+            return False
+        idx = CHUNK_IDX[10]
+        return len(ws) == 12 and all(w in idx for w in ws) and _overflow_in(idx, ws, 12)
     return False
 
 
@@ -371,6 +574,72 @@ def f9_algorand_dropped_byte_replay():
         return None
     return "phrase with 24th word %r (index 8) instead of %r decodes to the same key %s" % (ws2[23], ws[23], d.hex()[:16] + "...") \
         if d == e else None
+
+
+def _float_disagrees(e):
+    """math.floor(math.log(e, 2)) differs from the exact floor(log2 e) = bit_length - 1."""
+    import math
+    return e > 0 and math.floor(math.log(e, 2)) != e.bit_length() - 1
+
+
+def _f10_int(e):
+    """Bit length 133 / 265 (accepted, 13 / 25 words), or just below 2^121 / 2^253 where the float logarithm
+    rounds up to the boundary (accepted, 11 / 23 words)."""
+    return e.bit_length() in (133, 265) or (e.bit_length() in (121, 253) and _float_disagrees(e))
+
+
+def f10_ev2_gate(fn, args, rec):
+    """F10: Electrum v2 entropy gate -- integers of bit length 133 / 265, or within float rounding below 2^121 / 2^253."""
+    if fn == "ev2_gate":
+        return _f10_int(args[0])
+    if fn == "ev2_encode":
+        return _f10_int(int.from_bytes(args[2], "big"))
+    if fn == "ev2_from_entropy":
+        e = int.from_bytes(args[2], "big")
+        # the retry loop walks e, e+1, ...: the defect is reached when the walk enters the band
+        return _f10_int(e) or any(e < b <= e + E2_MAX for b in (2 ** 132, 2 ** 264))
+    return False
+
+
+def f10_ev2_gate_replay():
+    r = ElectrumV2EntropyGenerator.AreEntropyBitsEnough(2 ** 132)
+    return "AreEntropyBitsEnough(2**132) = True: a 133-bit integer, 13 base-2048 digits" if r else None
+
+
+def n2_ev2_top_word_zero(fn, args, rec):
+    """N2: an accepted Electrum v2 phrase whose last word has index 0 (most significant base-2048 digit zero)."""
+    if fn != "ev2_decode" or rec.get("kind") != "direct":
+        return False
+    ty, l, ws = args
+    try:
+        given = ElectrumV2Mnemonic.FromList(list(ws)).ToList()
+    except Exception:  # noqa
+        return False
+    lu = _ev2_lang_used(l, given)
+    return lu is not None and len(given) in (12, 24) and B39_IDX[lu].get(given[-1]) == 0
+
+
+def _find_ev2_phrase(rng, lang_pos, count, prefix, last_idx=None, pool=None):
+    """Search for a phrase over a BIP-39 list whose 'Seed version' HMAC hex digest starts with [prefix]
+    (generator side: hashlib directly)."""
+    import hmac as _h
+    words = B39[lang_pos][1]
+    pool = pool or words
+    for _ in range(400000):
+        ws = [rng.choice(pool) for _ in range(count)]
+        if last_idx is not None:
+            ws[-1] = words[last_idx]
+        if _h.new(b"Seed version", " ".join(ws).encode(), hashlib.sha512).hexdigest().startswith(prefix):
+            return ws
+    return None
+
+
+def n2_ev2_top_word_zero_replay():
+    import random
+    ws = _find_ev2_phrase(random.Random(17), B39_EN, 12, "01", last_idx=0)
+    if ws is None:
+        return None
+    return direct_ev2_decode([0, 1, ws])
 
 
 def n1_monero_auto_ambiguous(fn, args, rec):
@@ -629,9 +898,181 @@ def _gen_algorand(ctx):
         ctx.note_exhaustive("Algorand: all 2048 replacements of the 24th word of one phrase")
 
 
+def _gen_ev1(ctx):
+    rng = ctx.rng
+    words = EV1[1]
+    others = [B39[B39_EN][1], XMR[2][1], XMR[3][1]]
+    ents = [bytes(16), b"\xff" * 16] + [_rand_entropy(rng, 16) for _ in range(ctx.n(60, 1500))]
+    for e in ents:
+        ctx.run("ev1_encode", [e], "valid")
+        ws = impl_ev1_encode([e])
+        ctx.run("ev1_decode", [ws], "valid")
+        if rng.randrange(3) == 0:
+            ctx.run("ev1_is_valid", [ws], "valid")
+            ctx.run("ev1_decode_either", [ws], "valid")
+        for _ in range(2):
+            mw = _mutate_phrase(rng, ws, words, others)
+            ctx.run("ev1_decode", [mw], "mutated")
+            ctx.run("ev1_decode_either", [mw], "mutated")
+            if rng.randrange(3) == 0:
+                ctx.run("ev1_is_valid", [mw], "mutated")
+        ctx.run("ev1_decode", [[w.upper() if rng.randrange(2) else w.capitalize() for w in ws]], "case-changed")
+    for n in (0, 1, 4, 12, 15, 17, 20, 32):
+        ctx.run("ev1_encode", [bytes(rng.randrange(256) for _ in range(n))], "bad-size")
+
+
+def _gen_ev2(ctx):
+    rng = ctx.rng
+    # ---- the entropy gate at every power-of-two boundary it can be sensitive to, +- small and +- 2^j
+    for k in (0, 1, 8, 64, 119, 120, 121, 122, 123, 130, 131, 132, 133, 134, 143, 251, 252, 253, 254, 263, 264, 265,
+              266, 275, 300):
+        ds = [0, 1, 2, 3, -1, -2, -3] + [s * (1 << j) for j in range(2, k, 5 if ctx.quick else 2) for s in (1, -1)]
+        for d in ds:
+            e = (1 << k) + d
+            if e >= 0:
+                ctx.run("ev2_gate", [e], "boundary")
+                ctx.run("ev2_gate_either", [e], "boundary")
+    ctx.run("ev2_gate", [0], "zero", trivial=True)
+    for _ in range(ctx.n(150, 3000)):
+        e = rng.getrandbits(rng.choice([8, 100, 120, 121, 122, 127, 128, 131, 132, 133, 134, 200, 252, 253, 254, 256, 263,
+                                        264, 265, 266, 280]))
+        ctx.run("ev2_gate", [e], "rand")
+        ctx.run("ev2_gate_either", [e], "rand")
+    # ---- phrases
+    all_words = [B39[p][1] for p in E2_B39]
+    for l in range(len(E2L)):
+        words = all_words[l]
+        others = [w for j, w in enumerate(all_words) if j != l] + [EV1[1], B39[B39L.index(Bip39Languages.FRENCH)][1]]
+        types = [0] if ctx.quick else [0, 0, 0, 1, 2, 3]
+        for ty in types:
+            for bits in ((132, 264) if ty == 0 else (132,)):
+                reps = ctx.n(1, 6) if ty == 0 else 1
+                for _ in range(reps):
+                    e = (1 << (bits - 1 - rng.randrange(8))) | rng.getrandbits(bits - 12)
+                    b = _int_bytes(e)
+                    fuel = 6000 if ty == 0 else 90000
+                    ctx.run("ev2_from_entropy", [ty, l, b, fuel], "valid")
+                    try:
+                        ws = impl_ev2_from_entropy([ty, l, b])
+                    except ValueError:
+                        continue
+                    d = ElectrumV2MnemonicDecoder(E2T[ty], E2L[l]).Decode(" ".join(ws))
+                    ctx.run("ev2_encode", [ty, l, d], "valid")
+                    ctx.run("ev2_encode", [ty, l, b"\x00\x00" + d], "valid-leading-zeros")
+                    ctx.run("ev2_encode", [ty, l, b], "hash-mismatch")
+                    ctx.run("ev2_encode", [(ty + 1) % 4, l, d], "other-type")
+                    for dt in (ty, NOLANG, (ty + 1) % 4):
+                        for dl in (l, NOLANG, (l + 1) % 4):
+                            ctx.run("ev2_decode", [dt, dl, ws], "valid")
+                            ctx.run("ev2_decode_either", [dt, dl, ws], "valid")
+                    ctx.run("ev2_is_valid", [NOLANG, NOLANG, ws], "valid")
+                    for _ in range(3):
+                        mw = _mutate_phrase(rng, ws, words, others)
+                        ctx.run("ev2_decode", [rng.choice([ty, NOLANG]), rng.choice([l, NOLANG]), mw], "mutated")
+                        ctx.run("ev2_is_valid", [NOLANG, NOLANG, mw], "mutated")
+                    ctx.run("ev2_decode", [NOLANG, NOLANG, [w.upper() for w in ws]], "case-changed")
+        # arbitrary hash-valid phrases (not produced by the encoder): any 12 / 24 list words with the right prefix
+        for cnt in (12, 24):
+            for last in (None, 0, 0, 1, 2047):
+                ws = _find_ev2_phrase(rng, E2_B39[l], cnt, "01", last_idx=last)
+                if ws is None:
+                    continue
+                for dt, dl in ((0, l), (NOLANG, NOLANG)):
+                    ctx.run("ev2_decode", [dt, dl, ws], "hash-valid last=%s" % last)
+                    ctx.run("ev2_decode_either", [dt, dl, ws], "hash-valid last=%s" % last)
+        # a BIP-39 language the encoder does not offer: accepted under automatic detection
+    ws = _find_ev2_phrase(rng, B39L.index(Bip39Languages.FRENCH), 12, "01")
+    if ws:
+        ctx.run("ev2_decode", [NOLANG, NOLANG, ws], "french")
+        ctx.run("ev2_decode", [0, 1, ws], "french")
+    # ---- entropy sizes around the gate through the encoder and the generator
+    for bits in (8, 64, 120, 121, 122, 128, 132, 133, 134, 253, 264, 265, 266):
+        for _ in range(ctx.n(2, 10)):
+            e = (1 << (bits - 1)) | rng.getrandbits(bits - 1)
+            ctx.run("ev2_encode", [0, 1, _int_bytes(e)], "size-%d" % bits)
+        e = (1 << (bits - 1)) | rng.getrandbits(bits - 1)
+        if bits not in (132, 264):
+            ctx.run("ev2_from_entropy", [0, 1, _int_bytes(e), 6000], "size-%d" % bits)
+    ctx.run("ev2_encode", [0, 1, b""], "empty", trivial=True)
+    ctx.run("ev2_from_entropy", [0, 1, b"", 10], "empty", trivial=True)
+    # just below 2^121: the floating-point logarithm rounds up and the gate lets 11-word encodings through
+    for _ in range(ctx.n(3, 20)):
+        e = (1 << 121) - 1 - rng.getrandbits(40)
+        ctx.run("ev2_encode", [0, 1, _int_bytes(e)], "float-band")
+    # ---- the exclusion of BIP-39 and Electrum v1 phrases
+    import hmac as _h
+    from bip_utils import Bip39MnemonicGenerator
+    found = 0
+    for _ in range(20000):
+        ws = Bip39MnemonicGenerator().FromEntropy(bytes(rng.randrange(256) for _ in range(16))).ToList()
+        if _h.new(b"Seed version", " ".join(ws).encode(), hashlib.sha512).hexdigest().startswith("01"):
+            ctx.run("ev2_decode", [NOLANG, NOLANG, ws], "bip39-valid")
+            ctx.run("ev2_is_valid", [0, 1, ws], "bip39-valid")
+            found += 1
+            if found >= ctx.n(2, 8):
+                break
+    both = [w for w in EV1[1] if w in B39_IDX[B39_EN]]
+    for kind in ("v1-valid", "v1-overflow"):
+        for _ in range(ctx.n(2, 8)):
+            for _try in range(200):
+                ws = _find_ev2_phrase(rng, B39_EN, 12, "01", pool=both)
+                if ws is None:
+                    break
+                if kind == "v1-overflow":      # plant a triple that packs to >= 2^32 over the Electrum v1 list
+                    w1 = rng.choice(both)
+                    i1 = CHUNK_IDX[10][w1]
+                    cands = [(a, b) for a in rng.sample(both, 40) for b in both
+                             if (CHUNK_IDX[10][b] - CHUNK_IDX[10][a]) % N == 1625]
+                    if not cands:
+                        continue
+                    a, b = rng.choice(cands)
+                    ws[0:3] = [w1, a, b]
+                    if not _h.new(b"Seed version", " ".join(ws).encode(), hashlib.sha512).hexdigest().startswith("01"):
+                        continue
+                if (kind == "v1-overflow") == _overflow_in(CHUNK_IDX[10], ws, 12):
+                    ctx.run("ev2_decode", [NOLANG, NOLANG, ws], kind)
+                    ctx.run("ev2_decode_either", [NOLANG, NOLANG, ws], kind)
+                    ctx.run("ev1_decode", [ws], kind)
+                    break
+
+
+def _gen_cross(ctx):
+    """Phrases of one scheme given to the decoders of the others."""
+    rng = ctx.rng
+    for _ in range(ctx.n(4, 40)):
+        a = impl_algo_encode([bytes(rng.randrange(256) for _ in range(32))])
+        x = impl_xmr_encode([2, rng.randrange(2), bytes(rng.randrange(256) for _ in range(rng.choice([16, 32])))])
+        v = impl_ev1_encode([bytes(rng.randrange(256) for _ in range(16))])
+        for ws in (a, x, v, a[:12], a[:24], x[:12], v + v):
+            ctx.run("xmr_decode", [rng.choice([2, NOLANG]), ws], "cross")
+            ctx.run("algo_decode", [ws], "cross")
+            ctx.run("ev1_decode", [ws], "cross")
+            ctx.run("ev2_decode", [NOLANG, NOLANG, ws], "cross")
+
+
+def _check_list_normalisation(ctx):
+    """Bip39Mnemonic normalisation (lower + NFKD) fixes every word of the lists the Algorand / Electrum encoders
+    emit: the models return list words, the library returns their normalisation."""
+    import unicodedata
+    n = 0
+    for _, ws in B39 + [EV1]:
+        for w in ws:
+            n += 1
+            if unicodedata.normalize("NFKD", w.lower()) != w:
+                ctx.direct_failures.append({"kind": "direct", "fn": "list_normalisation", "tag": "exhaustive",
+                                            "args": {"l": [{"t": [ord(c) for c in w]}]},
+                                            "what": "list word %r is not a fixed point of lower + NFKD" % w})
+    ctx.evaluations += n
+    ctx.note_exhaustive("all %d words of the nine BIP-39 lists and the Electrum v1 list are fixed by lower + NFKD" % n)
+
+
 def generate(ctx):
     _M[0] = ctx.m
+    _check_list_normalisation(ctx)
     _gen_text(ctx)
     _gen_chunk(ctx)
     _gen_monero(ctx)
     _gen_algorand(ctx)
+    _gen_ev1(ctx)
+    _gen_ev2(ctx)
+    _gen_cross(ctx)
